@@ -1249,6 +1249,36 @@ func fullIndexLoopBound(idx ssa.Value) ssa.Value {
 	if !okInit || !okStep {
 		return nil
 	}
+	// the rotated form (`for i := range len(b)`): the value is tested on the way in - `0 < n` before the loop,
+	// `i+1 < n` at the end of a round - against one n
+	var rot ssa.Value
+	okRot := true
+	for i, e := range phi.Edges {
+		pred := phi.Block().Preds[i]
+		ifi, isIf := lastInstr(pred).(*ssa.If)
+		if !isIf || len(pred.Succs) != 2 || pred.Succs[0] != phi.Block() {
+			okRot = false
+			break
+		}
+		bo, isB := ifi.Cond.(*ssa.BinOp)
+		if !isB || bo.Op != token.LSS {
+			okRot = false
+			break
+		}
+		same := bo.X == e
+		if cx, isC := bo.X.(*ssa.Const); isC && !same {
+			ce, isCE := e.(*ssa.Const)
+			same = isCE && cx.Value != nil && ce.Value != nil && cx.Value.ExactString() == ce.Value.ExactString()
+		}
+		if !same || (rot != nil && rot != bo.Y) {
+			okRot = false
+			break
+		}
+		rot = bo.Y
+	}
+	if okRot && rot != nil {
+		return lenOf(rot)
+	}
 	// the controlling condition: an If in phi's block (or a successor chain of plain jumps) on phi < len(b)
 	blk := phi.Block()
 	for i := 0; i < 3 && blk != nil; i++ {
